@@ -15,6 +15,7 @@ from typing import Dict, List, Optional, Tuple
 
 from ..model import Program, AnalysisError, FuncInfo, walk_local, dotted
 from ..report import RuleResult
+from .usertruth import user_truth
 from ..astutil import src, site, calls_in, call_name, is_self_attr, is_super_call, kwarg, const_value
 from ..callgraph import self_closure
 
@@ -476,4 +477,4 @@ def pd_supers(prog: Program) -> RuleResult:
 
 
 def run(prog: Program, tier: str) -> List[RuleResult]:
-    return [pd_closure(prog), pd_owner(prog), pd_supers(prog)]
+    return [pd_closure(prog), pd_owner(prog), pd_supers(prog), user_truth(prog, ["property_descriptor.property_descriptor", "property_descriptor.monitored_container", "property_descriptor.property_descriptor_relation"], 2)]
